@@ -146,7 +146,20 @@ def materialise(case, base: Path):
     root = base / ROOTNAME
     root.mkdir(parents=True)
     log = str(base / "log.txt")
-    (root / "pyproject.toml").write_text("[tool.pytask.ini_options]\n")
+    toml = "[tool.pytask.ini_options]\n"
+    cf = case.get("cfg_file") or {}
+
+    def tv(values, form):
+        q = [json.dumps(v) for v in values]
+        return q[0] if form == "str" and len(q) == 1 else "[" + ", ".join(q) + "]"
+
+    if cf.get("ignore"):
+        toml += f"ignore = {tv(case['ignore'], cf['ignore'])}\n"
+    if cf.get("paths"):
+        toml += f"paths = {tv([p if p else '.' for p in case['paths']], cf['paths'])}\n"
+    if cf.get("task_files") and case["task_files"] is not None:
+        toml += f"task_files = {tv(case['task_files'], 'list')}\n"
+    (root / "pyproject.toml").write_text(toml)
     for d in case["dirs"]:
         (root / d).mkdir(parents=True, exist_ok=True)
     for rel, prog in case["files"].items():
@@ -233,9 +246,12 @@ def run_cases(cases, nworkers=8, hashseed0=0, servers=None):
             base = Path(os.path.realpath(base))
             root, log = materialise(case, base)
             dirs = [str(root)] + [str(root / d) for d in case["dirs"]]
+            cf = case.get("cfg_file") or {}
             job = {"root": str(root),
-                   "paths": [str(base / p[1:]) if p.startswith("@") else (str(root / p) if p else str(root)) for p in case["paths"]],
-                   "ignore": case["ignore"], "task_files": case["task_files"], "log": log,
+                   "paths": ([str(root)] if cf.get("paths") else
+                             [str(base / p[1:]) if p.startswith("@") else (str(root / p) if p else str(root)) for p in case["paths"]]),
+                   "ignore": None if cf.get("ignore") else case["ignore"],
+                   "task_files": None if cf.get("task_files") else case["task_files"], "log": log,
                    "probe_modules": probe_names(case), "listdirs": dirs,
                    "ptasks": [dict(pt, file=ptask_file(case, pt, root, base)) for pt in case.get("ptasks") or []]}
             res = servers[i % len(servers)].run(job)
@@ -967,6 +983,17 @@ def random_case(rng, cid, focus=None):
     case = {"id": cid, "dirs": dirs, "files": files, "paths": paths, "ignore": ignore, "task_files": task_files}
     if links:
         case["links"] = links
+    elif rng.random() < 0.2:
+        # the same options given in pyproject.toml instead of build(...): a single value as a string or as a list
+        cf = {}
+        if ignore:
+            cf["ignore"] = "str" if len(ignore) == 1 and rng.random() < 0.7 else "list"
+        if rng.random() < 0.4:
+            cf["paths"] = "str" if len(paths) == 1 and rng.random() < 0.6 else "list"
+        if task_files is not None and rng.random() < 0.5:
+            cf["task_files"] = "list"
+        if cf:
+            case["cfg_file"] = cf
     return case
 
 
@@ -1283,7 +1310,7 @@ def pmatch_campaign(ctx, n_random):
 def canon(case):
     return [sorted(case["dirs"]), {k: (v if v is None else [v.get("imports"), [{kk: vv for kk, vv in s.items() if kk not in ("obj", "tag")} for s in v["stmts"]]])
                                    for k, v in sorted(case["files"].items())}, case["paths"], case["ignore"], case["task_files"],
-            case.get("links"), [[pt["src"], pt["attr"], pt["kind"], pt.get("name"), pt.get("share")] for pt in case.get("ptasks") or []]]
+            case.get("links"), case.get("cfg_file"), [[pt["src"], pt["attr"], pt["kind"], pt.get("name"), pt.get("share")] for pt in case.get("ptasks") or []]]
 
 
 def nontrivial(case, ob, exp):
